@@ -216,7 +216,7 @@ class C02(TreeCheck):
     obligations = [("main", "L2BndS", "parseBlocks_bounds"), ("main", "C01a", "C01_ordered"), ("main", "NoPanicAll", "parseBlocks_no_panic"),
                    ("main", "BlockSpans", "parseBlocks_block_spans"), ("main", "BlockSpans", "parseFull_block_spans"),
                    ("main", "InlineSpans", "parseInlines_spans"), ("main", "InlineSpans", "parseInlines_spans_reduction"), ("main", "InlineSpans", "parseInlines_spans_literal_false"),
-                   ("main", "SpanHyp", "entriesOKX_eq"), ("main", "SpanHyp", "rewrite_roots_inline_spans"), ("main", "EntriesOK", "parseBlocks_entries_basic"), ("main", "Total", "parseBlocks_total")]
+                   ("main", "SpanHyp", "entriesOKX_eq"), ("main", "SpanHyp", "rewrite_roots_inline_spans"), ("main", "EntriesOK", "parseBlocks_entries_basic"), ("main", "ComposeSpans", "parseBlocks_inline_spans_partial"), ("main", "ComposeSpans", "parseBlocks_entriesOKroots_partial"), ("main", "Total", "parseBlocks_total")]
     proj = staticmethod(proj_spans)
     what = "span structure"
 
@@ -230,29 +230,30 @@ class C02(TreeCheck):
                     for i in range(len(a)) if is_obs(a[i]) and b[i] != "1"]
         js.append(Job("entry conditions of the inline-span theorem on the implementation's pre-inline trees", js[0].cases, corr=hyp))
         return js
-    assumptions = ["partial: proved for every input: every block span is valid, lies inside its parent and consecutive block children are ordered and disjoint, root starts are non-negative (parseFull_block_spans), and the ends of blocks and inline entries are bounded by the line read so far; inline level: for every leaf block whose entry list satisfies the executable condition entriesOK (entries valid, ordered, inside the block; only Unparsed/Indent entries; Indent entries one byte wide and at most 3 columns; every entry but the last non-empty and ending in a line ending; the byte after the last entry is blank or past the source), every inline node produced by parseInlines (after emphasis processing and link surgery) has a valid span inside its parent, siblings ordered and disjoint (InlineSpans.parseInlines_spans, lifted to everything Rewrite does to a root block in SpanHyp.rewrite_roots_inline_spans); the run evaluates that condition on the implementation's own pre-inline trees, so the theorem applies to each of them given the tie of the inline parser; for arbitrary (adversarial) entry lists the statement is false, witness proved (parseInlines_spans_literal_false); the proof found defect D23 (a Text child past its LinkDestination parent), repaired in /repo (8f64b82); that the block layer always produces entriesOK entry lists is not proved; that and the character-boundary clause are decided by the correspondence, the span oracle and the formal statement evaluated on the implementation's trees"]
+    assumptions = ["partial: proved for every input: every block span is valid, lies inside its parent and consecutive block children are ordered and disjoint, root starts are non-negative (parseFull_block_spans), and the ends of blocks and inline entries are bounded by the line read so far; inline level: for every leaf block whose entry list satisfies the executable condition entriesOK (entries valid, ordered, inside the block; only Unparsed/Indent entries; Indent entries one byte wide and at most 3 columns; every entry but the last non-empty and ending in a line ending; the byte after the last entry is blank or past the source), every inline node produced by parseInlines (after emphasis processing and link surgery) has a valid span inside its parent, siblings ordered and disjoint (InlineSpans.parseInlines_spans, lifted to everything Rewrite does to a root block in SpanHyp.rewrite_roots_inline_spans); the run evaluates that condition on the implementation's own pre-inline trees, so the theorem applies to each of them given the tie of the inline parser; for arbitrary (adversarial) entry lists the statement is false, witness proved (parseInlines_spans_literal_false); the proof found defect D23 (a Text child past its LinkDestination parent), repaired in /repo (8f64b82); that the block layer always produces entriesOK entry lists is proved for every input up to one executable clause (ComposeSpans.parseBlocks_entriesOKroots_partial: all clauses except that the Source byte right after the last entry of a paragraph or setext heading is not ')'); that and the character-boundary clause are decided by the correspondence, the span oracle and the formal statement evaluated on the implementation's trees"]
 
 
 reg(C02("C02"))
 
 
 class C03(TreeCheck):
-    obligations = [("main", "L2BndS", "parseBlocks_bounds"), ("main", "NoUnpFull", "C05_noUnparsed")]
+    obligations = [("main", "LinesAccounted", "no_duplication"), ("main", "LinesAccounted", "no_loss"), ("main", "LinesAccounted", "cover_le_one"), ("main", "LinesAccounted", "no_loss_raw_all"),
+                   ("main", "LAFull", "C03_no_dup_partial"), ("main", "L2BndS", "parseBlocks_bounds"), ("main", "NoUnpFull", "C05_noUnparsed")]
     proj = staticmethod(proj_leaves)
     what = "leaf spans"
-    assumptions = ["partial: the coverage statement itself is decided by the correspondence plus the coverage oracle on sampled inputs"]
+    assumptions = ["block layer, every input, no exception (LinesAccounted.no_duplication / no_loss): the inline entries of leaf blocks, the label/destination/title children of definitions and the list markers are pairwise disjoint and ordered, and every letter, digit or non-ASCII byte of every root's Source lies in exactly one of them: everything the block layer drops (markers, fences, closing sequences, underlines, blank lines, the punctuation of a definition) is non-textual", "after the inline pass: no byte is covered by two leaves (LAFull.C03_no_dup_partial, first conjunct of Props.chk_C03_root for every position) under the executable entry condition that the C02 check evaluates on the implementation's pre-inline trees; that the inline parser keeps every textual byte of an entry in exactly one leaf is not yet proved: decided by the correspondence, the coverage oracle and the formal statement evaluated on the implementation's trees"]
 
 
 reg(C03("C03"))
 
 
 class C05(TreeCheck):
-    obligations = [("main", "InlineFuel", "C04_gramI_doc"), ("main", "InlineFuel", "C04_titleNeedsDest"), ("main", "GramInline", "parseFull_gramI_partial"), ("main", "GramInline", "parseFull_noLinkInLink"), ("main", "GramInline", "parseFull_kinds"), ("main", "GramInline", "parseFull_gramI_titleDest_partial"), ("main", "GIB", "parseBlocks_noMixed"), ("main", "TieKinds", "tie_kinds"), ("main", "L2CCfull", "parseFull_contain"), ("main", "L2Kind2", "parseBlocks_kinds"), ("main", "NoUnpFull", "C05_noUnparsed"),
+    obligations = [("main", "ComposeGram", "parseFull_gramI"), ("main", "ComposeGram", "parseFull_gramI_statement_proved"), ("main", "ComposeGram", "parseBlocks_entOKDoc"), ("main", "InlineFuel", "C04_gramI_doc"), ("main", "InlineFuel", "C04_titleNeedsDest"), ("main", "GramInline", "parseFull_gramI_partial"), ("main", "GramInline", "parseFull_noLinkInLink"), ("main", "GramInline", "parseFull_kinds"), ("main", "GramInline", "parseFull_gramI_titleDest_partial"), ("main", "GIB", "parseBlocks_noMixed"), ("main", "TieKinds", "tie_kinds"), ("main", "L2CCfull", "parseFull_contain"), ("main", "L2Kind2", "parseBlocks_kinds"), ("main", "NoUnpFull", "C05_noUnparsed"),
                    ("main", "Clos12full", "C12_closure"), ("main", "Rec16", "ordered_number_range"),
                    ("main", "GramBlocks", "parseBlocks_gramBlocks"), ("main", "GramBlocks", "parseFull_gramBlocks")]
     proj = staticmethod(proj_kinds)
     what = "node kinds and accessor values"
-    assumptions = ["partial: proved for every input: canContain closure, entry kinds per block kind, no Unparsed node, reference closure, item number range, and all block-level clauses of the grammar (parseFull_gramBlocks: every list item starts with exactly one marker, markers and thematic breaks are childless, a definition is [label; destination] or [label; destination; title], list/item agreement on ordered and on tight, heading levels 1-6 / 1-2); the inline-level clauses are proved for every input too (parseFull_gramI_partial: in every paragraph and heading only phrasing content; link/image tails nothing | [label] | [destination] | [destination][title]; reference links without destination/title; children of code spans, link parts, autolinks and HTML tags of the right kinds; childless leaves; no Unparsed node; parseFull_noLinkInLink: no link inside a link) except that the tail clause admits a lone [title]: that a title always follows a destination is proved under the explicit, satisfiable side condition titleNeedsDestDoc (fuel sufficiency of the link scanner), parseFull_gramI_titleDest_partial; that clause and the accessor agreement are otherwise decided by the correspondence, the grammar oracle and the formal statement evaluated on the implementation's trees"]
+    assumptions = ["partial: proved for every input: canContain closure, entry kinds per block kind, no Unparsed node, reference closure, item number range, and all block-level clauses of the grammar (parseFull_gramBlocks: every list item starts with exactly one marker, markers and thematic breaks are childless, a definition is [label; destination] or [label; destination; title], list/item agreement on ordered and on tight, heading levels 1-6 / 1-2); the inline-level clauses are proved for every input too (parseFull_gramI_partial: in every paragraph and heading only phrasing content; link/image tails nothing | [label] | [destination] | [destination][title]; reference links without destination/title; children of code spans, link parts, autolinks and HTML tags of the right kinds; childless leaves; no Unparsed node; parseFull_noLinkInLink: no link inside a link) and the last clause (a title always follows a destination) is now proved for every input as well (ComposeGram.parseFull_gramI = GramInline.parseFull_gramI_statement, from the fuel adequacy of the link scanner, InlineFuel, and the well-formedness of the block layer's entry lists, EntriesOK); the accessor agreement is decided by the correspondence, the grammar oracle and the formal statement evaluated on the implementation's trees"]
 
     def jobs(self, seed, tier):
         js = TreeCheck.jobs(self, seed, tier)
@@ -265,12 +266,12 @@ reg(C05("C05"))
 
 
 class C13(TreeCheck):
-    obligations = [("main", "BlockShapes", "parseBlocks_block_shapes_partial"), ("main", "BlockShapes", "parseFull_block_shapes_partial"), ("main", "BlockShapes", "parseFull_block_shapes_prefill_partial"), ("main", "BlockShapesNul", "parseFull_block_shapes_aligned_partial"), ("main", "ShapesCS", "parseCodeSpan_shape"), ("main", "ShapesA", "parseAutolink_shape"), ("main", "ShapesA", "parseCharacterEscape_shape"), ("main", "ShapesA", "parseHardLineBreakSpace_hard_iff"), ("main", "ShapesHT", "parseHTMLTag_shape"), ("main", "ShapesA", "parseDelimiterRun_shape"), ("main", "ShapesComp3", "parseInlines_codespan_shapes_partial"), ("main", "InlineShapes", "parseInlines_shapes"), ("main", "ShapeHyp", "bikOKX'_eq"), ("main", "ShapeHyp", "rewrite_roots_inline_shapes"),
+    obligations = [("main", "BlockShapes", "parseBlocks_block_shapes_partial"), ("main", "BlockShapes", "parseFull_block_shapes_partial"), ("main", "BlockShapes", "parseFull_block_shapes_prefill_partial"), ("main", "BlockShapesNul", "parseFull_block_shapes_aligned_partial"), ("main", "ShapesCS", "parseCodeSpan_shape"), ("main", "ShapesA", "parseAutolink_shape"), ("main", "ShapesA", "parseCharacterEscape_shape"), ("main", "ShapesA", "parseHardLineBreakSpace_hard_iff"), ("main", "ShapesHT", "parseHTMLTag_shape"), ("main", "ShapesA", "parseDelimiterRun_shape"), ("main", "ShapesComp3", "parseInlines_codespan_shapes_partial"), ("main", "ComposeShapes", "parseBlocks_inline_shapes"), ("main", "ComposeShapes", "parseBlocks_shapeHyp"), ("main", "InlineShapes", "parseInlines_shapes"), ("main", "ShapeHyp", "bikOKX'_eq"), ("main", "ShapeHyp", "rewrite_roots_inline_shapes"),
                    ("main", "EntriesOK", "parseBlocks_entries_ok_partial"), ("main", "EntriesOK", "parseFull_codespan_shapes"), ("main", "EntDefs", "parseBlocks_entries_ok_statement_false"), ("main", "Shapes", "hardbreak_line_shape"), ("main", "Shapes", "codespan_shapes_statement_false"), ("main", "Rec16", "parseListMarker_sound"), ("main", "Rec17", "parseCodeFence_sound"), ("recog", "ATXProof", "parseATXHeading_correct"),
                    ("main", "Rec15", "parseSetext_correct")]
     proj = staticmethod(proj_kindspans)
     what = "(kind, span) of every node"
-    assumptions = ["block level: for every input without NUL bytes, every block node of every root has a valid span and the shape of its construct (list marker = bullet or 1-9 digits + '.'/')'; ATX heading starts with exactly its level of '#'; setext heading ends in its underline character; fenced code starts with its fence; block quote starts with '>') (parseFull_block_shapes_partial); for every input the same holds of the root's text before NUL filling (…_prefill_partial) and of the Source itself whenever the cut positions do not split a padded NUL (…_aligned_partial); that alignment for inputs with NUL is the open obligation shared with C01", "partial: scanner-level shape theorems for every kind of leaf-like construct (parseCodeSpan_shape: equal backtick runs; parseAutolink_shape, parseHTMLTag_shape: '<...>'; parseCharacterEscape_shape: '&...;'; parseHardLineBreakSpace_hard_iff; parseDelimiterRun_shape: copies of one of * or _) and, end to end through the whole inline parser, every CodeSpanKind node of parseInlines has the code-span shape for containers satisfying the executable condition bikOK (parseInlines_codespan_shapes_partial; without a condition the statement is false for arbitrary entry lists, witness proved); the recognizer theorems give the shape at creation for list markers, fences, ATX and setext lines", "inline level, all kinds and depths: for every leaf block whose entries satisfy the executable condition bikOK' (bikOK, childless Unparsed/RawHTML/Indent entries, line-ending bytes only as a suffix of each entry), every inline node of parseInlines has a valid span and the shape of its construct (InlineShapes.parseInlines_shapes = Props.shapesI; lifted to root blocks in ShapeHyp.rewrite_roots_inline_shapes); the run evaluates that condition on the implementation's own pre-inline trees; bikOK itself is proved of the block layer's output for every input except the empty entry of a content-less ATX heading (EntriesOK.parseBlocks_entries_ok_partial; the unrestricted statement is false, witness '#' proved), and code-span shapes are proved for every input outright (EntriesOK.parseFull_codespan_shapes); that the block layer always establishes the other two clauses of bikOK' is not yet proved"]
+    assumptions = ["block level: for every input without NUL bytes, every block node of every root has a valid span and the shape of its construct (list marker = bullet or 1-9 digits + '.'/')'; ATX heading starts with exactly its level of '#'; setext heading ends in its underline character; fenced code starts with its fence; block quote starts with '>') (parseFull_block_shapes_partial); for every input the same holds of the root's text before NUL filling (…_prefill_partial) and of the Source itself whenever the cut positions do not split a padded NUL (…_aligned_partial); that alignment for inputs with NUL is the open obligation shared with C01", "partial: scanner-level shape theorems for every kind of leaf-like construct (parseCodeSpan_shape: equal backtick runs; parseAutolink_shape, parseHTMLTag_shape: '<...>'; parseCharacterEscape_shape: '&...;'; parseHardLineBreakSpace_hard_iff; parseDelimiterRun_shape: copies of one of * or _) and, end to end through the whole inline parser, every CodeSpanKind node of parseInlines has the code-span shape for containers satisfying the executable condition bikOK (parseInlines_codespan_shapes_partial; without a condition the statement is false for arbitrary entry lists, witness proved); the recognizer theorems give the shape at creation for list markers, fences, ATX and setext lines", "inline level, all kinds and depths: for every leaf block whose entries satisfy the executable condition bikOK' (bikOK, childless Unparsed/RawHTML/Indent entries, line-ending bytes only as a suffix of each entry), every inline node of parseInlines has a valid span and the shape of its construct (InlineShapes.parseInlines_shapes = Props.shapesI; lifted to root blocks in ShapeHyp.rewrite_roots_inline_shapes); the run evaluates that condition on the implementation's own pre-inline trees; bikOK itself is proved of the block layer's output for every input except the empty entry of a content-less ATX heading (EntriesOK.parseBlocks_entries_ok_partial; the unrestricted statement is false, witness '#' proved), and code-span shapes are proved for every input outright (EntriesOK.parseFull_codespan_shapes); and the whole hypothesis is proved of the block layer's output for every input (ComposeShapes.parseBlocks_shapeHyp), hence for every input and matcher every inline node produced by Rewrite has a valid span and the shape of its construct (ComposeShapes.parseBlocks_inline_shapes)"]
 
     def jobs(self, seed, tier):
         js = TreeCheck.jobs(self, seed, tier)
@@ -636,8 +637,19 @@ class C14(Check):
             if d and d[-1:] != b"\n":
                 var.append((d + b"\n", "5"))
         jc = [(d, "") for d in docs(seed, tier, quick=2500, thorough=100000, bad=0.0)]
+        # link labels around the 999-character limit with line breaks inside (a CRLF counts as two): found by the proof
+        # attempt of the CRLF clause (EolCRLF.crlf_unrestricted_refuted)
+        lim = []
+        for n in (990, 995, 996, 997, 998, 999):
+            for k in (0, 1, 3):
+                inner = "a" * (n - k - (k * 3)) if False else None
+                body = "a" * (n - k)
+                parts = [body[i * len(body) // (k + 1):(i + 1) * len(body) // (k + 1)] for i in range(k + 1)]
+                inner = "\n".join(parts)
+                lim.append((("[%s]: /u\n\n[%s]\n" % (inner, inner)).encode(), ""))
         return [Job("line-ending variants", var, corr=two_sided("html", "html", ident, "safe-mode HTML")),
-                Job("documents", jc, judge_mode="judge:C14")]
+                Job("documents", jc, judge_mode="judge:C14"),
+                Job("labels at the length limit", lim, judge_mode="judge:C14", shrinkable=False)]
 
 
 reg(C14("C14"))
